@@ -32,7 +32,7 @@ pub const LINEAR_UNITS: [Unit; 21] = [
     Unit("in",      "0.0254",            "International Inch",           0.0254),
     Unit("ft",      "0.3048",            "International Foot",           0.3048),
     Unit("yd",      "0.9144",            "International Yard",           0.9144),
-    Unit("kmi",     "1609.344",          "International Statute Mile",   1609.344),
+    Unit("mi",      "1609.344",          "International Statute Mile",   1609.344),
     Unit("fath",    "1.8288",            "International Fathom",         1.8288),
     Unit("ch",      "20.1168",           "International Chain",          20.1168),
     Unit("link",    "0.201168",          "International Link",           0.201168),
